@@ -206,6 +206,7 @@ func (ex *Exec) defaultSchedBound() int {
 func (ex *Exec) newGoR(name string) *GoR {
 	g := &GoR{id: len(ex.sched.gs), resume: make(chan struct{}), name: fmt.Sprintf("g%d(%s)", len(ex.sched.gs), name)}
 	ex.sched.gs = append(ex.sched.gs, g)
+	ex.nGoroutines = len(ex.sched.gs)
 	return g
 }
 
@@ -774,6 +775,22 @@ func (ex *Exec) schedAPI(name string, args []Value, fr *Frame, pos token.Pos) Va
 		if ex.sched != nil {
 			ex.sched.bound = ex.concInt(args[0], "verifSchedBound")
 		}
+		return nil
+	case "verifSettle":
+		// wait until every other goroutine is blocked or finished (natively: a short sleep)
+		me := ex.sched.cur
+		ex.yield("settle")
+		ex.blockUntil(func() bool {
+			for _, g := range ex.sched.gs {
+				if g == me || g.done {
+					continue
+				}
+				if g.blockedOn == nil || g.blockedOn() {
+					return false
+				}
+			}
+			return true
+		}, "verifSettle")
 		return nil
 	case "verifSchedQuiet":
 		if ex.sched != nil {
